@@ -390,8 +390,12 @@ def main(argv):
             rng.shuffle(lines)
             sc_cases.append((a, o, join(lines), "min-chars-threshold"))
         for run in (2, 5, 7):
-            a, o = sc_args(mc=3, run=run)
-            lines = [b"abc" + b"x" * (run + d) + b"def" for d in (-1, 0, 1)] + [b"abc" + b" " * (run + 2) + b"defghi"] + [b"ab" + "é".encode() * (run + dd) + b"cd" for dd in (-1, 0)]
+            a, o = sc_args(mc=3, run=run, mci="1.0")
+            # supplementary-plane code points: runs of U+1F600, and U+10041 followed by 'A's (same low 16 bits, NOT a run)
+            sup = [b"abc" + "\U0001F600".encode() * (run + d) + b"def" for d in (-1, 0, 1)] + \
+                  [b"abc" + "\U00010041".encode() + b"A" * (run - 1) + b"def", b"abc" + b"A" * (run - 1) + "\U00010041".encode() + b"def",
+                   b"ab" + "\U00020000".encode() * (run - 1) + "\u0000".encode() * 0 + b"cd"]
+            lines = sup + [b"abc" + b"x" * (run + d) + b"def" for d in (-1, 0, 1)] + [b"abc" + b" " * (run + 2) + b"defghi"] + [b"ab" + "é".encode() * (run + dd) + b"cd" for dd in (-1, 0)]
             sc_cases.append((a, o, join(lines), "character-run-threshold"))
         # safety boundary: an otherwise acceptable line with exactly one C0 control / DEL / ill-formed sequence in it
         a, o = sc_args(mc=3, mci="1.0")
